@@ -281,11 +281,20 @@ func TestC16Wal(t *testing.T) {
 				if raftlib.IsEmptyHardState(hs) {
 					continue
 				}
-				if err := w.WriteHardState(&hs); err != nil {
-					t.Fatal(err)
+				// the raft loop persists a hard state either on its own or through SaveEntry with an empty entry batch
+				// (a Ready that only carries a vote / term / commit change)
+				if rapid.Bool().Draw(t, "viaSaveEntry") {
+					if err := w.SaveEntry(hs, nil); err != nil {
+						t.Fatalf("SaveEntry(hard state only): %v", err)
+					}
+					hist = append(hist, fmt.Sprintf("save-hardstate-only(c%d)", hs.Commit))
+				} else {
+					if err := w.WriteHardState(&hs); err != nil {
+						t.Fatal(err)
+					}
+					hist = append(hist, fmt.Sprintf("hardstate(c%d)", hs.Commit))
 				}
 				m.hs = &hs
-				hist = append(hist, fmt.Sprintf("hardstate(c%d)", hs.Commit))
 			case "snapshot":
 				if m.last == 0 {
 					continue
@@ -425,6 +434,12 @@ func TestC16Membership(t *testing.T) {
 				p.State = raftlib.ProgressStateProbe
 			case "snapshot":
 				p.State = raftlib.ProgressStateSnapshot
+			}
+			// Next: one past Match when idle; in the replicate state the leader may have sent (not yet acknowledged)
+			// everything up to its last entry
+			p.Next = p.Match + 1
+			if p.State == raftlib.ProgressStateReplicate && rapid.Bool().Draw(t, "inflight") {
+				p.Next = lastIdx + 1
 			}
 			healthy[m.ID] = h == "healthy" || h == "gap-at-limit"
 			st.Progress[m.ID] = p
